@@ -70,6 +70,12 @@ def run(ctx):
         elif outs[0] != exp:
             ctx.fail("value", "both renderings give %s, the logical document says %s" % (outs[0][:200], exp[:200]), [cases[g0], cases[g0 + 1]], outs[:2], exp)
 
+    # the binary walks inside the Coq model (BinDeTape / BinDeOndemand / BinDeReader, Props/C04_walk.v, C10_walk.v)
+    # on the binary renderings of this property's documents
+    wm = ["de.model.bin" + c[len("de.bin"):] for c in cases if c.startswith("de.bin\t")]
+    ctx.count("walk_model_cases", len(wm))
+    ctx.correspond("walk_model", wm, nontrivial=nt)
+
     # scalar level of both formats against the extracted Serde model
     from props import descalar
     ctx.correspond("scalar-both", descalar.text_cases(ctx, ctx.scale(100, 1000)) + descalar.bin_cases(ctx, ctx.scale(60, 600)), nontrivial=nt)
@@ -88,6 +94,6 @@ def search(ctx):
 
 CLAIM = {
     "text": "one logical document is rendered as text and as binary and deserialized into the same runtime shape through the text slice/reader paths and the three binary paths; all results must be equal and equal to the independently computed value; Coq: see coverage.theorems",
-    "note": "The Coq side pins the shared value specification (Serde.spec_value is format independent on shared documents) and the date codec agreement imported from C13; the two deserializers themselves are tied by the oracle stream only.",
+    "note": "Props/C10_walk.v: the binary specification is independent of the encoding choices (integer token, string form incl. resolvable ids, ghosts) and every binary path on every encoding returns it; the text half of text_bin_agree is NOT proved (two specifications, no common logical document yet). Earlier note: The Coq side pins the shared value specification (Serde.spec_value is format independent on shared documents) and the date codec agreement imported from C13; the two deserializers themselves are tied by the oracle stream only.",
     "technique": "machine-checked proof in Coq over an executable model + specification oracle on the implementation",
 }
